@@ -27,7 +27,7 @@ import (
 // ---- domain B: client certificates against security.TLSInfo.ServerConfig() -----------------------------
 
 type CertSpec struct {
-	Issuer    string   `json:"issuer"`     // trusted | rogue (another CA with the SAME subject name) | self | trusted-via-intermediate | rogue-via-intermediate | none (no client certificate)
+	Issuer    string   `json:"issuer"`     // trusted | rogue (another CA with the SAME subject name) | self | trusted-via-intermediate | rogue-via-intermediate | server-pki (the CA that issued the SERVER's certificate, another PKI than the trusted client CA) | none (no client certificate)
 	CN        string   `json:"cn"`         // subject common name
 	DNS       []string `json:"dns"`        // SAN DNS names
 	IPs       []string `json:"ips"`        // SAN IP addresses
@@ -41,6 +41,9 @@ type TLSCase struct {
 	AllowedHostname string   `json:"allowed_hostname"`
 	ClientCertAuth  bool     `json:"client_cert_auth"`
 	Cert            CertSpec `json:"cert"`
+	// FullChain: the server's certificate file is a full-chain file from a PKI of its own - leaf, issuing intermediate and root -
+	// instead of a lone leaf signed by the client CA.  What is bundled there identifies the SERVER; it is no trust anchor for clients.
+	FullChain bool `json:"full_chain,omitempty"`
 }
 
 const goodCN = "replica.regatta.internal"
@@ -106,6 +109,10 @@ func genTLS(t *rapid.T) TLSCase {
 		}
 	}
 	c.Cert = s
+	c.FullChain = rapid.IntRange(0, 2).Draw(t, "fullchain") == 0
+	if c.FullChain && rapid.Bool().Draw(t, "serverpki") {
+		c.Cert.Issuer = "server-pki"
+	}
 	return c
 }
 
@@ -117,8 +124,12 @@ type pki struct {
 	trustedIntKey, rogueIntKey *ecdsa.PrivateKey
 	serverCertFile, serverKey  string
 	caFile                     string
-	serial                     int64
-	mu                         sync.Mutex
+	// the server's own PKI (full-chain deployment)
+	srvRoot, srvInt        *x509.Certificate
+	srvRootKey, srvIntKey  *ecdsa.PrivateKey
+	fullChainFile, fullKey string
+	serial                 int64
+	mu                     sync.Mutex
 }
 
 var (
@@ -201,6 +212,33 @@ func getPKI() (*pki, error) {
 		if pkiErr = writePEM(p.serverKey, "EC PRIVATE KEY", kder); pkiErr != nil {
 			return
 		}
+		// a second server identity from a PKI of its own, deployed as a full-chain file
+		if p.srvRoot, p.srvRootKey, pkiErr = p.makeCA("Server PKI Root", nil, nil); pkiErr != nil {
+			return
+		}
+		if p.srvInt, p.srvIntKey, pkiErr = p.makeCA("Server PKI Issuing CA", p.srvRoot, p.srvRootKey); pkiErr != nil {
+			return
+		}
+		fkey, _ := ecdsa.GenerateKey(elliptic.P256(), rand.Reader)
+		ftmpl := &x509.Certificate{SerialNumber: p.nextSerial(), Subject: pkix.Name{CommonName: "server"}, DNSNames: []string{"server"},
+			NotBefore: time.Now().Add(-time.Hour), NotAfter: time.Now().Add(240 * time.Hour), ExtKeyUsage: []x509.ExtKeyUsage{x509.ExtKeyUsageServerAuth}, KeyUsage: x509.KeyUsageDigitalSignature}
+		fder, err := x509.CreateCertificate(rand.Reader, ftmpl, p.srvInt, &fkey.PublicKey, p.srvIntKey)
+		if err != nil {
+			pkiErr = err
+			return
+		}
+		p.fullChainFile, p.fullKey = filepath.Join(p.dir, "fullchain.crt"), filepath.Join(p.dir, "fullchain.key")
+		var chainPEM []byte
+		for _, der := range [][]byte{fder, p.srvInt.Raw, p.srvRoot.Raw} {
+			chainPEM = append(chainPEM, pem.EncodeToMemory(&pem.Block{Type: "CERTIFICATE", Bytes: der})...)
+		}
+		if pkiErr = os.WriteFile(p.fullChainFile, chainPEM, 0o600); pkiErr != nil {
+			return
+		}
+		fk, _ := x509.MarshalECPrivateKey(fkey)
+		if pkiErr = writePEM(p.fullKey, "EC PRIVATE KEY", fk); pkiErr != nil {
+			return
+		}
 		thePKI = p
 	})
 	return thePKI, pkiErr
@@ -247,6 +285,8 @@ func (p *pki) mint(s CertSpec) (*tls.Certificate, []*x509.Certificate, error) {
 		signer, signerKey, inter = p.trustedInt, p.trustedIntKey, p.trustedInt
 	case "rogue-via-intermediate":
 		signer, signerKey, inter = p.rogueInt, p.rogueIntKey, p.rogueInt
+	case "server-pki":
+		signer, signerKey, inter = p.srvInt, p.srvIntKey, p.srvInt
 	default: // self signed
 		signer, signerKey = tmpl, key
 	}
@@ -299,6 +339,10 @@ func runTLS(c TLSCase, o *vt.Obs) *vt.Failure {
 		return nil
 	}
 	ti := security.TLSInfo{CertFile: p.serverCertFile, KeyFile: p.serverKey, TrustedCAFile: p.caFile, ClientCertAuth: c.ClientCertAuth, AllowedCN: c.AllowedCN, AllowedHostname: c.AllowedHostname}
+	if c.FullChain {
+		ti.CertFile, ti.KeyFile = p.fullChainFile, p.fullKey
+		o.Label("server-certificate-file-is-a-full-chain-of-another-pki")
+	}
 	cfg, err := ti.ServerConfig()
 	if err != nil {
 		return vt.Failf(prop+"/server-config-error", 0, "ServerConfig for %+v: %v", c, err)
@@ -342,6 +386,7 @@ func runTLS(c TLSCase, o *vt.Obs) *vt.Failure {
 	// near miss: everything right except one aspect
 	near := !want && (c.Cert.Issuer == "trusted" || c.Cert.Issuer == "trusted-via-intermediate") && c.Cert.Validity == "valid" && (c.Cert.EKU == "client" || c.Cert.EKU == "both")
 	near = near || (!want && c.Cert.Issuer == "rogue" && c.Cert.CN == goodCN && c.Cert.Validity == "valid")
+	near = near || (!want && c.Cert.Issuer == "server-pki" && c.Cert.Validity == "valid")
 	if near {
 		o.Label("near-miss-certificate")
 	}
